@@ -22,7 +22,7 @@ structure CRow where
   cls : Cls
   dim : Dim
 
-private def e10 (n : Nat) : Rat := ((10 ^ n : Nat) : Int)
+def e10 (n : Nat) : Rat := ((10 ^ n : Nat) : Int)
 
 -- dimensions (mass, length, time, temperature, angle, current, luminous, logarithmic)
 def dAction : Dim := ⟨1, 2, -1, 0, 0, 0, 0, 0⟩
@@ -161,6 +161,9 @@ def homonyms : List String := ["G", "hbar"]
 
 /-- tolerance for "the same quantity in another guise": 2⁻⁴⁵ relative -/
 def guiseTol : Rat := 1 / (2 : Rat) ^ (45 : Nat)
+
+/-- unit-table cells outside the multiplicative fragment (`B` = ln(10)/2 Np) -/
+def nonMonomialUnitCells : List String := ["B"]
 
 /-! ### literal exclusion lists (each entry is a recorded finding with a counterexample theorem) -/
 
